@@ -98,7 +98,42 @@ fn check_int(ctx: &mut Ctx, r: Reg, i: i64) {
 
 /// classification through label decoding and through every field typed by the registry
 fn check_label_positions(ctx: &mut Ctx, i: i64) {
-    let n = Item::int(i);
+    check_label_positions_item(ctx, Item::int(i));
+}
+
+/// Texts that an implementation might be tempted to interpret: decimal spellings of every
+/// registered value (plain, signed, zero-padded), of the private-use boundary and of the 64-bit
+/// extremes, the names of every registry entry in the crate's and in lower-case spelling, the JWT
+/// claim names, and texts whose length needs a 4-byte head.  "Text labels are always kept."
+fn text_probes() -> Vec<String> {
+    let mut v: Vec<String> = crate::gen::TEXTS.iter().chain(crate::gen::LOOKALIKE_TEXTS.iter()).map(|s| s.to_string()).collect();
+    for r in ALL_REGS {
+        for e in registry::entries(r) {
+            v.push(e.iana.to_string());
+            v.push(format!("{:+}", e.iana));
+            v.push(format!("{:04}", e.iana));
+            v.push(e.name.to_string());
+            v.push(e.name.to_lowercase());
+            v.push(e.name.to_uppercase());
+            v.push(e.name.replace('_', "-"));
+            v.push(e.name.replace('_', " "));
+        }
+    }
+    for i in [-65535i64, -65536, -65537, -65538, -70000, -100000, i64::MIN, i64::MAX, 0, -0] {
+        v.push(i.to_string());
+        v.push(format!(" {}", i));
+        v.push(format!("{}.0", i));
+        v.push(format!("{:#x}", i));
+    }
+    for n in [23usize, 24, 255, 256, 65535, 65536, 65537, 70000] {
+        v.push("t".repeat(n));
+    }
+    v.sort();
+    v.dedup();
+    v
+}
+
+fn check_label_positions_item(ctx: &mut Ctx, n: Item) {
     for ty in LABEL_TYPES {
         decode_oracle(ctx, ty, &rcbor::det(&n), "label type", true);
     }
@@ -136,6 +171,7 @@ impl Check for C17 {
             Phase { name: "from_i64 / is_private on random 64-bit integers: uniform, random bit widths, registered values plus random multiples of 2^8..2^56 (thorough)", cases: if q { 0 } else { crate::mon::scale(40000, b) }, exhaustive: false },
             Phase { name: "label decoding classification on every integer of [-70000, 70000] (thorough)", cases: if q { 0 } else { (2 * WINDOW / 100 + 1) as u64 }, exhaustive: true },
             Phase { name: "label decoding classification on random 64-bit integers (thorough)", cases: if q { 0 } else { crate::mon::scale(4000, b) }, exhaustive: false },
+            Phase { name: "text labels are kept as text in the 9 label types and 8 typed fields: decimal spellings and names of every registry entry, boundary spellings, long texts", cases: (text_probes().len() as u64 + 19) / 20, exhaustive: true },
         ]
     }
     fn run_case(&self, ctx: &mut Ctx, phase: usize, idx: u64) {
@@ -195,6 +231,14 @@ impl Check for C17 {
                 }
                 ctx.nontrivial(idx ^ 0x1705);
             }
+            7 => {
+                let t = text_probes();
+                for x in t.iter().skip(idx as usize * 20).take(20) {
+                    ctx.nontrivial(crate::rng::mix(0x1707, crate::rng::hash_bytes(x.as_bytes())));
+                    ctx.count("text-label-probes");
+                    check_label_positions_item(ctx, Item::text(x));
+                }
+            }
             6 => {
                 for _ in 0..10 {
                     let r = ALL_REGS[ctx.rng.below(ALL_REGS.len())];
@@ -224,7 +268,7 @@ impl Check for C17 {
         }
     }
     fn rule(&self) -> String {
-        "exhaustive: every name of the 16 registry enumerations against a frozen IANA table (to_i64, discriminant, from_i64 of the registered value, round trip, no two names on one integer); from_i64 and is_private for every integer in [-70000, 70000] (covers every assigned value and the private-use boundary) plus 64-bit extremes and every registered value shifted by 2^8 ... 2^56, negated, complemented and sign-flipped (aliases under truncation); label decoding through the 9 label types and 8 typed fields (alg in header/key/KDF context, crit element, content type, kty, key op, claim key) on [-66000,-65000] u [-300,12000] and the probe points, judged by the reference model (registered -> name; unregistered private -> kept; otherwise rejected). The thorough tier adds label decoding on every integer of [-70000, 70000] and from_i64 / is_private / label decoding on random 64-bit integers (uniform, random widths, registered values displaced by random multiples of 2^8..2^56). Non-trivial = distinct (registry, integer) groups.".into()
+        "exhaustive: every name of the 16 registry enumerations against a frozen IANA table (to_i64, discriminant, from_i64 of the registered value, round trip, no two names on one integer); from_i64 and is_private for every integer in [-70000, 70000] (covers every assigned value and the private-use boundary) plus 64-bit extremes and every registered value shifted by 2^8 ... 2^56, negated, complemented and sign-flipped (aliases under truncation); label decoding through the 9 label types and 8 typed fields (alg in header/key/KDF context, crit element, content type, kty, key op, claim key) on [-66000,-65000] u [-300,12000] and the probe points, judged by the reference model (registered -> name; unregistered private -> kept; otherwise rejected). The thorough tier adds label decoding on every integer of [-70000, 70000] and from_i64 / is_private / label decoding on random 64-bit integers (uniform, random widths, registered values displaced by random multiples of 2^8..2^56). Text labels: every text of a probe list (decimal, signed and zero-padded spellings of every registered value, names of every registry entry in several spellings, JWT claim names, private-use boundary and 64-bit extremes as text, texts of 23..70000 bytes) must be kept as text by every label type and typed field. Non-trivial = distinct (registry, integer) groups.".into()
     }
     fn assumptions(&self) -> Vec<String> {
         vec!["the frozen table in harness/src/registry.rs transcribes the IANA COSE, CBOR-tag, CoAP content-format and CWT registries as of the snapshot the crate documents".into()]
